@@ -292,7 +292,7 @@ rc::Gen<Case> gen_main() {
       {1, op1("u_bulk", range(1, 3000))},
       {2, op1("res", range(0, 2))},
       {2, op1("est", range(0, 1))},
-      {1, rc::gen::map(range(0, 9), [](int64_t x) { return x < 2 ? Op{"reset", {}} : Op{"est", {x}}; })},
+      {1, rc::gen::map(range(0, 9), [](int64_t x) { return x < 6 ? Op{"reset", {}} : Op{"est", {x}}; })},
   });
   auto ops = rc::gen::map(rc::gen::tuple(rc::gen::mapcat(range(2, 5), [sk](int64_t n) { return rc::gen::container<std::vector<Op>>(static_cast<size_t>(n), sk); }), oplist(hist, 2, 0.12)),
                           [](std::tuple<std::vector<Op>, std::vector<Op>> t) { auto v = std::get<0>(t); auto& h = std::get<1>(t); v.insert(v.end(), h.begin(), h.end()); return v; });
